@@ -1,71 +1,11 @@
 (* From expressions to whole scripts: the main block, NewFrame / Return, and the byte-level VM. *)
 From Coq Require Import ZArith NArith List Bool Lia.
-From KV.comp Require Import Ast0 Sem0 Instr0 Comp0 VM0 Known0 InstrLemmas CompLemmas SimBase SimExpr SimAll.
+From KV.comp Require Import Ast0 Sem0 Instr0 Comp0 VM0 Known0 InstrLemmas CompLemmas SemLemmas SimBase SimExpr SimQ SimAll.
 Import ListNotations.
 Open Scope N_scope.
 Ltac Zify.zify_post_hook ::= Z.to_euclidean_division_equations.
 
 Definition noD : ident -> bool := fun _ => false.
-
-Lemma block_sim : forall pool p, p <> [] -> all_list frag p = true ->
-  forall st out st' c, comp_block (comp pool) RAny p st = OK (out, st', c) -> wfst st ->
-  drop_block dropped false p = false ->
-  ip st' = ip st + code_size c /\ ext st st' /\ wfst st' /\
-  (exists ro, o_reg out = Some ro) /\
-  forall n s rs prog, any_list known_expr p = false -> inv st noD s rs ->
-    tbase st + tused st' <= N.of_nat (length rs) -> code_at prog (ip st) c ->
-    match eval_block (eval n) s p with
-    | ONorm v s' => exists rs', star pool prog (ip st) rs (ip st') rs' /\ length rs' = length rs /\
-                                (forall ro, o_reg out = Some ro -> get rs' ro = Some v)
-    | OErr c => stops pool prog (ip st) rs (VFail c)
-    | OFuel => True
-    | _ => False
-    end.
-Proof.
-  intros pool p. induction p as [|e rest IH]; intros NE FR st out st' c H W DR; [congruence|].
-  cbn [all_list] in FR. apply andb_prop in FR as [Fe Frest].
-  destruct rest as [|e2 rest].
-  - (* last expression: mode Any *)
-    cbn [comp_block] in H. cbn [drop_block] in DR.
-    destruct (sim_expr pool e Fe RAny st out st' c H W DR) as ((I & E & W' & SH) & DY).
-    split; [assumption|]. split; [assumption|]. split; [assumption|].
-    split; [destruct SH as [(-> & _)|(x & l & -> & _)]; cbn; eauto|].
-    { intros n s rs prog K IV B CA. cbn [any_list] in K. rewrite orb_false_r in K. cbn [eval_block].
-      assert (RD : forall x, noD x = true -> reads x e = false) by (intros; discriminate).
-      specialize (DY n s rs noD prog K IV RD (dest_ok_any _ _ _ _) B CA).
-      destruct (eval n s e) as [v s'| | | |]; auto.
-      destruct DY as (rs' & St & LN & _ & R & _). exists rs'. auto. }
-  - remember (e2 :: rest) as tl. cbn [comp_block] in H. rewrite Heqtl in H. rewrite <- Heqtl in H.
-    apply bind_inv in H. destruct H as (o1 & st1 & c1 & c2 & H1 & H2 & ->).
-    cbn [drop_block] in DR. rewrite Heqtl in DR. rewrite <- Heqtl in DR.
-    apply orb_false_elim in DR as [D1 D2].
-    destruct (sim_expr pool e Fe RNone st o1 st1 c1 H1 W D1) as ((I1 & E1 & W1 & SH1) & DY1).
-    assert (NE2 : tl <> []) by (subst; discriminate).
-    destruct (IH NE2 Frest st1 out st' c2 H2 W1 D2) as (I2 & E2 & W2 & RO & DY2).
-    split; [rewrite code_size_app; lia|].
-    split; [eapply ext_trans; eauto|].
-    split; [assumption|]. split; [assumption|].
-    { intros n s rs prog K IV B CA. cbn [any_list] in K. apply orb_false_elim in K as [K1 K2].
-      apply code_at_app in CA as [CA1 CA2].
-      cbn [eval_block]. rewrite Heqtl. rewrite <- Heqtl.
-      assert (RD : forall x, noD x = true -> reads x e = false) by (intros; discriminate).
-      assert (DO : dest_ok st RNone rs noD e) by (intros d Ed; discriminate).
-      assert (B1 : tbase st + tused st1 <= N.of_nat (length rs)) by (pose proof (ext_used _ _ E2); lia).
-      specialize (DY1 n s rs noD prog K1 IV RD DO B1 CA1).
-      destruct (eval n s e) as [v1 s1| | | |]; auto.
-      destruct DY1 as (rs1 & St1 & LN1 & IV1 & _).
-      assert (IV1' : inv st1 noD s1 rs1).
-      { eapply inv_weaken; [exact IV1|]. intros x Hx. unfold dirty in Hx. cbn in Hx. exact Hx. }
-      assert (B2 : tbase st1 + tused st' <= N.of_nat (length rs1)).
-      { rewrite LN1, (ext_tbase _ _ E1). exact B. }
-      rewrite <- I1 in CA2.
-      specialize (DY2 n s1 rs1 prog K2 IV1' B2 CA2).
-      destruct (eval_block (eval n) s1 tl) as [v s'| | | |]; auto.
-      * destruct DY2 as (rs' & St2 & LN2 & R). exists rs'. splits; auto.
-        -- eapply star_trans; eauto.
-        -- lia.
-      * eapply star_stops; eauto. }
-Qed.
 
 Lemma get_resize_null : forall n k, k < N.of_nat n -> get (resize [VNull] n) k = Some VNull.
 Proof.
@@ -95,8 +35,14 @@ Qed.
 Definition sem_to_vm (r : Sem0.result) : vmres :=
   match r with Done v => VDone v | Failed c => VFail c | _ => VTimeout end.
 
+Lemma resolve_wf : forall b c, forallb wf_instr c = true -> resolve b c = OK c.
+Proof.
+  induction c; intros H; [reflexivity|]. cbn [forallb] in H. apply andb_prop in H as [Ha Hc].
+  cbn [resolve]. rewrite (IHc Hc). destruct a; try reflexivity. discriminate.
+Qed.
+
 Theorem comp_correct_frag : forall p fuel ch,
-  p <> [] -> all_list frag p = true -> known_C01 p = false ->
+  all_list frag p = true -> wf0 p = true -> known_C01 p = false ->
   compile p = OK ch ->
   match Sem0.run fuel p with
   | Done v => exists n, VM0.run n ch = VDone v
@@ -104,10 +50,10 @@ Theorem comp_correct_frag : forall p fuel ch,
   | _ => True
   end.
 Proof.
-  intros p fuel ch NE FR KN HC.
+  intros p fuel ch FR WF KN HC.
   unfold known_C01 in KN. apply orb_false_elim in KN as [K1 K2].
   unfold compile in HC. destruct (compile_code p) as [[code pl]|] eqn:CC; [|discriminate].
-  destruct (forallb wf_instr code) eqn:WF; [|discriminate]. inversion HC; subst ch; clear HC.
+  destruct (forallb wf_instr code) eqn:WFI; [|discriminate]. inversion HC; subst ch; clear HC.
   unfold compile_code in CC. cbv zeta in CC.
   destruct (255 <? 1 + local_count p mod 256) eqn:LC; [discriminate|].
   set (st0 := init_st (local_count p mod 256)) in *.
@@ -119,36 +65,68 @@ Proof.
     - unfold st0, init_st, nlocals. cbn [locals tbase length]. lia.
     - unfold st0, init_st. cbn [tcount tused]. lia.
     - intros x l G. unfold st0, init_st, get_local_assigned_register in G. cbn in G. discriminate. }
-  destruct (block_sim (pool_of p) p NE FR st0 blk st1 c1 HB W0 K2) as (I1 & E1 & W1 & (ro & RO) & DY).
-  rewrite RO in HT.
-  apply bind_inv in HT. destruct HT as (u1 & st2 & cr & c3 & HE & HP & ->).
-  unfold emit in HE. inversion HE; subst u1 st2 cr; clear HE.
-  destruct u. apply pop_if_inv in HP; [|apply wfst_set_ip; assumption].
-  destruct HP as (-> & I3 & L3 & T3 & U3 & E3 & W3 & _).
+  change (comp_block (comp (pool_of p)) RAny p st0) with (comp (pool_of p) (EBlock p) RAny st0) in HB.
+  destruct (sim_all (pool_of p) (EBlock p) FR) as (HQ & _).
+  destruct (HQ WF RAny st0 blk st1 c1 HB W0 K2) as ((I1 & E1 & W1 & SH) & DY).
+  (* the tail: Return *)
+  assert (TAIL : tbase stf = tbase st1 /\ tused st1 <= tused stf /\
+                 (forall ro, o_reg blk = Some ro -> c2 = [IReturn ro])).
+  { destruct (o_reg blk) as [ro|].
+    - apply bind_inv in HT. destruct HT as (u1 & st2 & cr & c3 & HE & HP & ->).
+      unfold emit in HE. inversion HE; subst u1 st2 cr; clear HE. destruct u.
+      apply pop_if_inv in HP; [|apply wfst_set_ip; assumption].
+      destruct HP as (-> & I3 & L3 & T3 & U3 & E3 & W3 & _). cbn [tbase tused set_ip] in *.
+      splits; try lia. intros ro0 E0. inversion E0; subst. reflexivity.
+    - apply bind_inv in HT. destruct HT as (t & st2 & cr & c3 & HPU & HT & ->).
+      apply push_inv in HPU; [|assumption].
+      destruct HPU as (-> & -> & L & T & Lo & I & C & U & E & W2).
+      apply bind_inv in HT. destruct HT as (u1 & st3 & cr & c4 & HE & HT & ->).
+      unfold emit in HE. inversion HE; subst u1 st3 cr; clear HE.
+      apply bind_inv in HT. destruct HT as (u1 & st3 & cr & c5 & HE & HT & ->).
+      unfold emit in HE. inversion HE; subst u1 st3 cr; clear HE. destruct u.
+      apply pop_inv in HT; [|apply wfst_set_ip; apply wfst_set_ip; assumption].
+      destruct HT as (-> & L3 & T3 & Lo3 & I3 & C3 & U3 & E3 & W3). cbn [tbase tused set_ip] in *.
+      splits; try lia. intros ro0 E0. discriminate. }
+  destruct TAIL as (TB & TU & RET).
   set (nregs := tbase stf + tused stf).
-  set (prog := INewFrame nregs :: c1 ++ [IReturn ro] ++ []).
+  set (prog := INewFrame nregs :: c1 ++ c2).
   set (rs0 := resize [VNull] (N.to_nat nregs)).
-  assert (TB : tbase stf = tbase st0) by (rewrite T3; cbn; apply (ext_tbase _ _ E1)).
-  assert (TU : tused st1 = tused stf) by (rewrite U3; reflexivity).
-  assert (CAall : code_at prog 2 (c1 ++ [IReturn ro])).
+  assert (TB0 : tbase stf = tbase st0) by (rewrite TB; apply (ext_tbase _ _ E1)).
+  assert (CAall : code_at prog 2 (c1 ++ c2)).
   { exists [INewFrame nregs], []. split; [unfold prog; cbn; rewrite app_nil_r; reflexivity|reflexivity]. }
   apply code_at_app in CAall as [CA1 CA2].
+  assert (WF1 : forallb wf_instr c1 = true).
+  { cbn [forallb] in WFI. apply andb_prop in WFI as [_ WFI]. rewrite forallb_app in WFI.
+    apply andb_prop in WFI. tauto. }
+  assert (CR : cares prog 0 (ip st0) c1).
+  { exists c1. split; [apply resolve_wf; assumption|exact CA1]. }
   assert (IV0 : inv st0 noD env0 rs0).
   { constructor.
     - intros x l S. unfold st0, init_st, slot_of in S. cbn in S. discriminate.
-    - intros k K3 K4. apply get_resize_null. unfold nregs. rewrite TB. lia.
+    - intros k K3 K4. apply get_resize_null. unfold nregs. rewrite TB0. lia.
     - intros. reflexivity. }
   assert (B0 : tbase st0 + tused st1 <= N.of_nat (length rs0)).
-  { unfold rs0. rewrite length_resize. unfold nregs. rewrite TB, TU. lia. }
+  { unfold rs0. rewrite length_resize. unfold nregs. rewrite TB0. lia. }
   assert (FIRST : istep (pool_of p) prog 0 [VNull] = SNext 2 rs0) by reflexivity.
-  specialize (DY fuel env0 rs0 prog K1 IV0 B0 CA1).
+  assert (RD0 : forall x, noD x = true -> reads x (EBlock p) = false) by (intros; discriminate).
+  assert (LO0 : esc (EBlock p) = true -> loop_ok st0 rs0 noD (EBlock p)).
+  { intros _. unfold loop_ok, st0, init_st. cbn. exact I. }
+  specialize (DY (S fuel) env0 rs0 noD prog 0 K1 IV0 RD0 (dest_ok_any _ _ _ _) LO0 B0 CR).
+  change (eval (S fuel) env0 (EBlock p)) with (eval_block (eval fuel) env0 p) in DY.
   unfold Sem0.run.
   assert (FIN : forall r, stops (pool_of p) prog 0 [VNull] r -> r <> VBad ->
                 exists n, VM0.run n (mkChunk (encode_code prog) (pool_of p)) = r).
   { intros r ST NB. apply stops_run in ST. destruct ST as (n & Hn). exists n.
     unfold VM0.run. apply run_refines; auto. }
+  pose proof (jump_not_norm (S fuel) (EBlock p) env0) as JN.
+  change (eval (S fuel) env0 (EBlock p)) with (eval_block (eval fuel) env0 p) in JN.
   destruct (eval_block (eval fuel) env0 p) as [v s'| | | |]; auto.
-  - destruct DY as (rs' & St & LN & R). apply FIN; [|discriminate].
+  - destruct DY as (rs' & St & LN & _ & R & _).
+    unfold shapeQ in SH. destruct (is_jump (EBlock p)) eqn:J; [exfalso; exact (JN eq_refl)|].
+    assert (exists ro, o_reg blk = Some ro) as (ro & RO).
+    { destruct SH as [(-> & _)|(x & l & -> & _)]; cbn; eauto. }
+    rewrite (RET ro RO) in CA2.
+    apply FIN; [|discriminate].
     exists (ip st1), rs'. split.
     + econstructor; [exact FIRST|exact St].
     + rewrite I1 in *. change (ip st0) with 2 in *.
